@@ -68,6 +68,34 @@ fn rt_interned<T: Encode + Decode>(kind: &str, v: &T, show: &dyn Fn(&T) -> Strin
         }
     }
 }
+/// the writer's handles are all DROPPED before decoding with the writer's interner: its tables then hold dead weak entries for
+/// exactly these values (no vacuum pass has run), and decoding must re-populate them
+fn rt_interned_after_drop<T: Encode + Decode>(kind: &str, make: &dyn Fn(&qbice_storage::intern::Interner) -> T, show: &dyn Fn(&T) -> String) {
+    unsafe { COUNT += 1 };
+    let (wp, wi) = interner();
+    let (bytes, shown) = {
+        let v = make(&wi);
+        let shown = show(&v);
+        let bytes = match qbice_serialize::postcard::encode(&v, &wp) { Ok(b) => b, Err(e) => report_found(kind, &shown, &format!("encode error {e}"), "Ok") };
+        (bytes, shown)
+        // v (and with it every handle) is dropped here
+    };
+    let r = std::panic::catch_unwind(std::panic::AssertUnwindSafe(|| {
+        let mut dec = qbice_serialize::PostcardDecoder::new(&bytes[..]);
+        let r: std::io::Result<T> = qbice_serialize::Decoder::decode(&mut dec, &wp);
+        (r.map(|w| show(&w)).map_err(|e| e.to_string()), dec.into_inner().len())
+    }));
+    let case = format!("{kind} (all handles dropped, then decoded with the SAME interner)");
+    match r {
+        Err(_) => report_found(&case, &shown, &format!("decode panicked (bytes {bytes:?})"), &shown),
+        Ok((Err(e), _)) => report_found(&case, &shown, &format!("decode error {e}"), &shown),
+        Ok((Ok(w), rest)) => {
+            if w != shown { report_found(&case, &shown, &w, &shown); }
+            if rest != 0 { report_found(&case, &shown, &format!("decoder left {rest} bytes"), "0 bytes"); }
+        }
+    }
+}
+
 fn interned_cases() {
     use qbice_storage::intern::Interned;
     use std::path::{Path, PathBuf};
@@ -106,6 +134,20 @@ fn interned_cases() {
         let outer: Interned<Vec<Interned<String>>> = wi.intern(vec![inner.clone(), inner.clone()]);
         rt_interned("(Interned<Vec<Interned<String>>>, Interned<String>, same outer again)", &(outer.clone(), inner.clone(), outer.clone()),
             &|v| format!("({:?},{:?},{:?})", v.0.iter().map(|x| x.to_string()).collect::<Vec<_>>(), &*v.1, v.2.iter().map(|x| x.to_string()).collect::<Vec<_>>()), &wp);
+    }
+    {
+        use qbice_storage::intern::Interned;
+        use std::path::{Path, PathBuf};
+        rt_interned_after_drop("Vec<Interned<String>> with repeats", &|i| { let a = i.intern("dup".to_string()); vec![a.clone(), a.clone(), i.intern("other".to_string()), a] },
+            &|v| format!("{:?}", v.iter().map(|x| (**x).clone()).collect::<Vec<_>>()));
+        rt_interned_after_drop("Vec<Interned<str>> with repeats", &|i| { let a = i.intern_unsized::<str, _>("dup".to_string()); vec![a.clone(), a.clone(), i.intern_unsized::<str, _>("other".to_string()), a] },
+            &|v| format!("{:?}", v.iter().map(|x| x.to_string()).collect::<Vec<_>>()));
+        rt_interned_after_drop("Vec<Interned<[u32]>> with repeats", &|i| { let a = i.intern_unsized::<[u32], _>(vec![1u32, 2, 3]); vec![a.clone(), a.clone(), a] },
+            &|v| format!("{:?}", v.iter().map(|x| x.to_vec()).collect::<Vec<_>>()));
+        rt_interned_after_drop("Vec<Interned<Path>> with repeats", &|i| { let a = i.intern_unsized::<Path, _>(PathBuf::from("/a/b")); vec![a.clone(), a.clone(), a] },
+            &|v| format!("{:?}", v.iter().map(|x| x.to_path_buf()).collect::<Vec<_>>()));
+        rt_interned_after_drop("(Interned<String>, Interned<str>, Interned<String>, Interned<str>)", &|i| { let s = i.intern("t".to_string()); let u = i.intern_unsized::<str, _>("t".to_string()); (s.clone(), u.clone(), s, u) },
+            &|v| format!("({:?},{:?},{:?},{:?})", &*v.0, &*v.1, &*v.2, &*v.3));
     }
     let _ = std::panic::take_hook();
 }
@@ -327,6 +369,16 @@ fn main() {
         if w.to_bits() != v.to_bits() {
             report_found("f64 NaN payload", "0x7ff80000deadbeef", &format!("{:#x}", w.to_bits()), "same bits");
         }
+    }
+    for n in [65535usize, 65536, 65537, 131072, 200_000] {
+        // long payloads: every byte must arrive at its own position (content patterned, not constant)
+        let long: String = (0..n).map(|i| char::from(b'a' + ((i * 7 + i / 251) % 26) as u8)).collect();
+        rt(&format!("String of {n} bytes"), &long);
+        rt(&format!("(String of {n} bytes, u8)"), &(long.clone(), 7u8));
+        rt(&format!("Box<str> of {n} bytes"), &long.clone().into_boxed_str());
+        rt(&format!("PathBuf of {n} bytes"), &std::path::PathBuf::from(&long));
+        let bytes: Vec<u8> = (0..n).map(|i| (i * 31 + i / 257) as u8).collect();
+        rt(&format!("Vec<u8> of {n} bytes"), &bytes);
     }
     for s in ["", "a", "héllo", "\u{10ffff}", &"x".repeat(127), &"y".repeat(128), &"z".repeat(16384)] {
         nested("String", &s.to_string(), &"q".to_string());
